@@ -140,6 +140,15 @@ fn builder(doc: &Value) -> Value {
     let mut probed = 0u64;
     for (si, s) in seqs.iter().enumerate() {
         let log = Arc::new(Mutex::new(Vec::<String>::new()));
+        // one middleware object per id within a sequence: handing the same Arc twice must register it twice
+        let mut mw_objs: std::collections::HashMap<String, Arc<dyn Middleware<St, i64> + Send + Sync>> =
+            std::collections::HashMap::new();
+        let mut mw = |id: &str| -> Arc<dyn Middleware<St, i64> + Send + Sync> {
+            mw_objs
+                .entry(id.to_string())
+                .or_insert_with(|| Arc::new(LogMw { id: id.to_string(), log: log.clone() }))
+                .clone()
+        };
         let mut b = StoreBuilder::<St, i64>::new(Vec::new());
         for c in s["seq"].as_array().unwrap() {
             let m = c["m"].as_str().unwrap();
@@ -156,14 +165,9 @@ fn builder(doc: &Value) -> Value {
                     "latest" => BackpressurePolicy::DropLatest,
                     _ => BackpressurePolicy::BlockOnFull,
                 }),
-                "with_middleware" => b.with_middleware(Arc::new(LogMw { id: sarg, log: log.clone() })),
-                "with_middlewares" => b.with_middlewares(
-                    strs(&c["l"])
-                        .iter()
-                        .map(|m| Arc::new(LogMw { id: m.clone(), log: log.clone() }) as Arc<dyn Middleware<St, i64> + Send + Sync>)
-                        .collect(),
-                ),
-                "add_middleware" => b.add_middleware(Arc::new(LogMw { id: sarg, log: log.clone() })),
+                "with_middleware" => b.with_middleware(mw(&sarg)),
+                "with_middlewares" => b.with_middlewares(strs(&c["l"]).iter().map(|m| mw(m)).collect()),
+                "add_middleware" => b.add_middleware(mw(&sarg)),
                 _ => b,
             };
         }
